@@ -31,7 +31,6 @@ def gen_tree(rng):
     dev_id = rng.choice([ids[0], ids[0], ids[0], (6, 0, 0, 0), (0, 0, 0, 5), (25, 0, 0, 1), (0, 0x45e, 0, 0), (0, 0, 7, 0), (3, 0x45e, 0x28e, 0)])
     ids[0] = dev_id
     go, mo = ["tree.reset"], ["tree.reset"]
-    maps = [dict() for _ in range(4)]     # expected: id -> filename, built with the same rule as the property states
     missing = set()
     files = [[] for _ in range(4)]
     for r in range(4):
@@ -81,18 +80,89 @@ def gen_tree(rng):
             if any(f[0].split(".")[0] == nm for f in files[r]):
                 continue
             if k < 0.5:
-                files[r].append((nm + rng.choice([".toml", ".TOML", ".Toml"]), "fail", None, rng.choice(BROKEN)))
+                # broken in many ways, or (a third) off by one character: `channel = 0` in an otherwise valid file
+                bc = rng.choice(BROKEN) if rng.random() < 0.66 else near_broken(rng.choice([dev_id, (0, 0, 0, 0), ids[1]]))
+                files[r].append((nm + rng.choice([".toml", ".TOML", ".Toml"]), "fail", None, bc))
             elif k < 0.8:
                 # not a TOML file by name: ignored even if its content is a valid config for the device
                 files[r].append((nm + rng.choice([".txt", ".toml.bak", "toml", ".tom", ""]), "nontoml", dev_id, valid_cfg(dev_id)))
             else:
                 files[r].append((nm + rng.choice(["", ".toml"]), "dir", None, None))
     for r in range(4):
+        if r not in missing:
+            rng.shuffle(files[r])
+    g1, m1, maps = emit_tree(files, missing)
+    go += g1
+    mo += m1
+    go.append("tree.load")
+    mo.append("tree.load")
+    finds = []
+    fops = []
+    for ident in [dev_id, ids[1], ids[3], (9, 9, 9, 9), rng.choice([(6, 0, 0, 0), (0, 0, 0, 1), (0, 0, 0, 0)])]:
+        for ty in range(4):
+            fops.append("find %d %d %d %d %d" % (ident + (ty,)))
+            finds.append((ident, ty))
+    go += fops
+    mo += fops
+    phases = [(go, mo, {"maps": maps, "missing": missing, "finds": finds, "files": files})]
+    # ---- the same tree edited in place and loaded again by the same process (the application reloads the whole tree on
+    # every change): a file rejected before is repaired — same length, possibly the same time stamp —, an accepted one is
+    # broken, removed, or given another identifier; the second load must be what a fresh process would load
+    if rng.random() < 0.35:
+        import copy
+        files2 = copy.deepcopy(files)
+        go2, mo2 = [], ["tree.reset"]
+        for r in range(4):
+            if r in missing:
+                continue
+            keep = []
+            for (name, kind, ident, content) in files2[r]:
+                if kind == "fail" and content in NEAR and rng.random() < 0.7:
+                    ident = NEAR[content]
+                    content = valid_cfg(ident)
+                    kind = "ok"
+                    go2.append("tree.rewrite %d %s %s %d" % (r, hx(name), hx(content), rng.choice([0, 1, 1])))
+                elif kind == "ok" and rng.random() < 0.2:
+                    content = near_broken(ident)
+                    kind, ident = "fail", None
+                    go2.append("tree.rewrite %d %s %s %d" % (r, hx(name), hx(content), rng.choice([0, 1, 1])))
+                elif kind == "ok" and rng.random() < 0.1:
+                    go2.append("tree.remove %d %s" % (r, hx(name)))
+                    continue
+                elif kind == "ok" and rng.random() < 0.1:
+                    ident = rng.choice([dev_id, (0, 0, 0, 0), ids[1]])
+                    content = valid_cfg(ident)
+                    go2.append("tree.rewrite %d %s %s %d" % (r, hx(name), hx(content), rng.choice([0, 1])))
+                keep.append((name, kind, ident, content))
+            files2[r] = keep
+        _, m2, maps2 = emit_tree(files2, missing)
+        mo2 += m2
+        go2.append("tree.load")
+        mo2.append("tree.load")
+        go2 += fops
+        mo2 += fops
+        phases.append((go2, mo2, {"maps": maps2, "missing": missing, "finds": finds, "files": files2, "reload": True}))
+    return phases
+
+
+def near_broken(ident):
+    """a configuration that is rejected and differs from the valid one for `ident` in one character (same length)"""
+    b = valid_cfg(ident).replace(b"channel = 1\n", b"channel = 0\n")
+    NEAR[b] = ident
+    return b
+
+
+NEAR = {}
+
+
+def emit_tree(files, missing):
+    go, mo = [], []
+    maps = [dict() for _ in range(4)]     # expected: id -> filename, built with the same rule as the property states
+    for r in range(4):
         if r in missing:
             go.append("tree.missing %d" % r)
             mo.append("tree.missing %d" % r)
             continue
-        rng.shuffle(files[r])
         for name, kind, ident, content in files[r]:
             if kind == "dir":
                 go.append("tree.dir %d %s" % (r, hx(name)))
@@ -113,16 +183,7 @@ def gen_tree(rng):
         # expectation (independent of the model): walk order = sorted by path components; later wins
         for name, kind, ident, content in sorted([f for f in files[r] if f[1] in ("ok", "link-ok")], key=lambda f: f[0].encode().split(b"/")):
             maps[r][ident] = name.split("/")[-1]
-    go.append("tree.load")
-    mo.append("tree.load")
-    finds = []
-    for ident in [dev_id, ids[1], ids[3], (9, 9, 9, 9), rng.choice([(6, 0, 0, 0), (0, 0, 0, 1), (0, 0, 0, 0)])]:
-        for ty in range(4):
-            op = "find %d %d %d %d %d" % (ident + (ty,))
-            go.append(op)
-            mo.append(op)
-            finds.append((ident, ty))
-    return go, mo, {"maps": maps, "missing": missing, "finds": finds, "files": files}
+    return go, mo, maps
 
 
 def expected_find(maps, ident, ty):
@@ -154,7 +215,7 @@ def run(prop, tier, seed, verdict):
     n = 2000 if tier == "quick" else 20000
     workdir = os.path.join(WORK, prop)
     os.makedirs(workdir, exist_ok=True)
-    trees = [gen_tree(rng) for _ in range(n)]
+    trees = [ph for _ in range(n) for ph in gen_tree(rng)]
     go_ops, mo_ops = [], []
     for i, (g, m, e) in enumerate(trees):
         go_ops.append("case %d" % i)
@@ -213,11 +274,11 @@ def run(prop, tier, seed, verdict):
                                   {"correspondence": "Hidi.loadAll/findConfig (lean/Hidi/Loader.lean) vs config.LoadDeviceConfigs/FindConfig",
                                    "ops": g, "model_ops": m, "implementation": gl[k] if k < len(gl) else None, "model": ml[k] if k < len(ml) else None}, False)
     return {
-        "evaluations": n + nfind, "distinct_nontrivial": len(combos),
+        "evaluations": len(trees) + nfind, "distinct_nontrivial": len(combos),
         "rule": "hidi-config trees: per directory each of {exact-id file, default file, other-id file, duplicate-id file, nested file} present or absent, "
                 "decorated with broken .toml files, non-TOML names with valid content, empty directories, directories named *.toml, upper-case suffixes, "
-                "8 %% of directories missing; FindConfig for 4 identifiers x 4 device types; distinct_nontrivial = distinct (loaded maps, device type, identifier) combinations queried",
-        "find_queries": nfind, "traces_validated_against_impl": n, "disagreements": disag,
+                "8 % of directories missing; 35 % of the trees edited in place (rejected file repaired at the same length and time stamp, accepted file broken / removed / re-identified) and loaded again by the same process; FindConfig for 4 identifiers x 4 device types; distinct_nontrivial = distinct (loaded maps, device type, identifier) combinations queried",
+        "find_queries": nfind, "traces_validated_against_impl": len(trees), "reloads_of_an_edited_tree": sum(1 for t in trees if t[2].get("reload")), "disagreements": disag,
         "trees_with_missing_root": sum(1 for t in trees if t[2]["missing"]),
         "samples": [{"ops": trees[0][0][:20], "implementation": [x for x in G.get("0", []) if x][:6]}],
         "assumptions": ["file contents enter the model as parse outcomes (ok+identifier / fail) decided by the generator and confirmed by the real ParseData through the load result",
